@@ -50,12 +50,16 @@ impl SupervisionTree {
         if child.get_status() >= super::actor_cell::ActorStatus::Draining
             || supervisor.get_status() >= super::actor_cell::ActorStatus::Draining
         {
+            #[cfg(ractor_verif)]
+            verif_note("link.done", child, &supervisor, 0);
             return false;
         }
 
         let child_id = child.get_id();
         let mut new_children_guard = supervisor.inner.tree.children.lock().unwrap();
         let Some(new_children) = new_children_guard.as_mut() else {
+            #[cfg(ractor_verif)]
+            verif_note("link.done", child, &supervisor, 0);
             return false;
         };
 
@@ -65,6 +69,8 @@ impl SupervisionTree {
             .is_some_and(|current| current.get_id() == supervisor.get_id())
         {
             new_children.insert(child_id, child.clone());
+            #[cfg(ractor_verif)]
+            verif_note("link.done", child, &supervisor, 1);
             return true;
         }
 
@@ -79,6 +85,8 @@ impl SupervisionTree {
                 previous_children.remove(&child_id);
             }
         }
+        #[cfg(ractor_verif)]
+        verif_note("link.done", child, &supervisor, 1);
         true
     }
 
@@ -90,6 +98,8 @@ impl SupervisionTree {
             .as_ref()
             .is_some_and(|current| current.get_id() == supervisor.get_id())
         {
+            #[cfg(ractor_verif)]
+            verif_note("unlink.done", child, supervisor, 0);
             return;
         }
 
@@ -98,6 +108,8 @@ impl SupervisionTree {
             children.remove(&child.get_id());
         }
         *current_supervisor = None;
+        #[cfg(ractor_verif)]
+        verif_note("unlink.done", child, supervisor, 1);
     }
 
     /// Close this actor's child set and detach the children for iterative termination.
@@ -118,6 +130,8 @@ impl SupervisionTree {
             }
         }
 
+        #[cfg(ractor_verif)]
+        crate::verif::emit("take.done", parent.get_id().pid(), cells.len() as i64);
         cells
     }
 
@@ -301,6 +315,12 @@ impl SupervisionTree {
         }
     }
 
+    /// Whether the child set has been closed for good (verification accessor)
+    #[cfg(ractor_verif)]
+    pub(crate) fn verif_children_closed(&self) -> bool {
+        self.children.lock().unwrap().is_none()
+    }
+
     /// Retrieve the number of supervised children
     #[cfg(test)]
     pub(crate) fn get_num_children(&self) -> usize {
@@ -317,4 +337,19 @@ impl SupervisionTree {
     pub(crate) fn get_num_parents(&self) -> usize {
         usize::from(self.supervisor.lock().unwrap().is_some())
     }
+}
+
+/// Emit-only note from inside a tree-lock region (never parks: other controlled threads may be
+/// waiting for the lock)
+#[cfg(ractor_verif)]
+fn verif_note(label: &str, child: &ActorCell, supervisor: &ActorCell, result: i64) {
+    crate::verif::emit_kv(
+        label,
+        child.get_id().pid(),
+        result,
+        vec![(
+            "sup".to_string(),
+            crate::verif::Val::I(supervisor.get_id().pid() as i64),
+        )],
+    );
 }
